@@ -395,6 +395,7 @@ class World:
         if self.violation is not None:
             return ev
         # D: the property's statement about the returned value
+        self._draws = len(g.trace) if g is not None else None
         self._check_D_clusters(i, op, atoms, params, clusters)
         # bookkeeping
         self._probe_clusters(op, clusters, g)
@@ -468,6 +469,8 @@ class World:
                     i,
                     "expected one cluster with all %d atoms, got sizes %s" % (n, [len(c.indices) for c in clusters]),
                     sizes=[len(c.indices) for c in clusters],
+                    draws=getattr(self, "_draws", None),
+                    multi_draw=(None if getattr(self, "_draws", None) is None else bool(self._draws > 1)),
                 )
                 return
             if "dim" in exp:
